@@ -16,7 +16,7 @@ import traceback
 VERIF = os.path.dirname(os.path.dirname(os.path.abspath(__file__)))
 KNOWN = os.path.join(VERIF, 'known_findings.json')
 EVID = os.path.join(VERIF, 'evidence')
-REPLAYS = os.path.join(VERIF, 'replays')
+REPLAYS = os.environ.get('VERIF_REPLAYS') or os.path.join(VERIF, 'replays')
 
 CASE_WALL_S = 120
 MAX_REPORTED = 6
@@ -160,13 +160,62 @@ def run_cases(mod, modname, cases_iter, jobs, budget_s, chunk=8):
     return agg, complete, time.time() - t0
 
 
+# simpler values per parameter name, simplest first (used when a workload has no shrink() of
+# its own): fewer parties, fewer operations, smaller data, optional faults and variants off
+GENERIC_SHRINK = {
+    'fault': [None], 'stall': [False], 'twice': [False], 'in_file': [False], 'align': [False],
+    'same_uid': [False], 'mixed_ts': [False], 'disturb': [0, None, False], 'connect': [None],
+    'dribble': [False, None], 'kill': [None], 'rst_at_send': [None], 'fin_now': [False],
+    'nclients': [1, 2], 'nstores': [1, 2], 'npeers': [2], 'nassoc': [1, 2], 'senders': [1],
+    'others': [0, 1], 'n': [0, 1, 2, 3], 'size': [0, 10, 100], 'dsize': [0, 8, 64],
+    'frags': [1, 3, 8], 'nrq': [1], 'nrsp': [1], 'delay': [0, 0.0], 'pending': ['none'],
+    'dest': ['real'], 'source': ['ds'], 'outcome': ['success'],
+    'sched': ['uniform'], 'policy': ['uniform'], 'one_write': [True], 'first': [False],
+}
+
+
+def generic_shrink(case):
+    if not isinstance(case, dict):
+        return
+    for key in sorted(case):
+        cur = case[key]
+        for val in GENERIC_SHRINK.get(key, ()):
+            if val == cur and type(val) is type(cur):
+                break                      # already at (or below) this level
+            cand = dict(case)
+            cand[key] = val
+            if key == 'n' and isinstance(case.get('outcomes'), list):
+                if not isinstance(cur, int) or val >= cur:
+                    continue
+                cand['outcomes'] = case['outcomes'][:val]
+            elif key in ('n', 'nclients', 'nstores', 'npeers', 'nassoc', 'senders', 'others',
+                         'size', 'dsize', 'frags', 'nrq', 'nrsp') and \
+                    isinstance(cur, (int, float)) and not isinstance(cur, bool) and val >= cur:
+                continue
+            yield cand
+    for key in ('ctx', 'calls', 'outcomes'):
+        cur = case.get(key)
+        if isinstance(cur, list) and len(cur) > 1 and not (key == 'outcomes' and 'n' in case):
+            for i in range(min(len(cur), 12)):
+                cand = dict(case)
+                cand[key] = cur[:i] + cur[i + 1:]
+                yield cand
+
+
+def _close_leftovers():
+    try:
+        from . import world
+        world.close_leftovers()
+    except BaseException:  # pylint: disable=broad-except
+        pass
+
+
 def minimise(mod, case, sig, wall_s=60):
-    """Shrink the case (workload-specific candidates) while the same signature recurs."""
+    """Shrink the case (workload-specific candidates, else the generic parameter shrinker)
+    while the same signature recurs."""
     t0 = time.time()
-    shrink = getattr(mod, 'shrink', None)
+    shrink = getattr(mod, 'shrink', None) or generic_shrink
     best = case
-    if shrink is None:
-        return best
     progress = True
     while progress and time.time() - t0 < wall_s:
         progress = False
@@ -176,6 +225,7 @@ def minimise(mod, case, sig, wall_s=60):
             try:
                 r = mod.run_case(cand)
             except BaseException:  # pylint: disable=broad-except
+                _close_leftovers()
                 continue
             if any(v['sig'] == sig for v in r.get('violations', [])):
                 best = cand
@@ -205,6 +255,7 @@ def _holds(mod, case, sig, forced):
     try:
         r = mod.run_case(case)
     except BaseException:  # pylint: disable=broad-except
+        _close_leftovers()
         return False
     finally:
         sched.FORCED = None
